@@ -249,14 +249,14 @@ let run_line c (l : string) seq =
         let rs = str t in let id = ref_id c rs in let p = v3 t in let flag = integer t <> 0 in let q = vec t in
         let (w, r) = (if cmd = "b2b" then calc_b2b else calc_base2b) fo m m.ws q (n_of_int id) p flag in
         setw c w; line "o" seq cmd (fun () -> ov3 r);
-        if flag then spec_try (fun () ->
+        spec_try (fun () ->
           let k = kstate_of c rs q (zeros n_qd) (zeros n_qd) in
           line "s" seq cmd (fun () -> ov3 (if cmd = "b2b" then k_point fo k p else m3tv k.kR (v3sub p k.kp))))
       | "orient" ->
         let rs = str t in let id = ref_id c rs in let flag = integer t <> 0 in let q = vec t in
         let (w, r) = calc_orient fo m m.ws q (n_of_int id) flag in
         setw c w; line "o" seq cmd (fun () -> om3 r);
-        if flag then spec_try (fun () -> let k = kstate_of c rs q (zeros n_qd) (zeros n_qd) in line "s" seq cmd (fun () -> om3 (m3t k.kR)))
+        spec_try (fun () -> let k = kstate_of c rs q (zeros n_qd) (zeros n_qd) in line "s" seq cmd (fun () -> om3 (m3t k.kR)))
       | "jac" | "jac6" | "sjac" ->
         let rs = str t in let id = ref_id c rs in let p = if cmd = "sjac" then zero3 else v3 t in
         let flag = integer t <> 0 in let q = vec t in
@@ -267,7 +267,7 @@ let run_line c (l : string) seq =
           | "jac6" -> calc_point_jacobian6 fo m m.ws q (n_of_int id) p g0 flag
           | _ -> calc_body_spatial_jacobian fo m m.ws q (n_of_int id) g0 flag) in
         setw c w; line "o" seq cmd (fun () -> omat g);
-        if flag then spec_try (fun () ->
+        spec_try (fun () ->
           let cols = List.init n_qd (fun k ->
             let ks = kstate_of c rs q (unit n_qd k) (zeros n_qd) in
             let vl = k_vel fo ks p in
@@ -280,7 +280,7 @@ let run_line c (l : string) seq =
         let rs = str t in let id = ref_id c rs in let p = v3 t in let flag = integer t <> 0 in let q = vec t in let qd = vec t in
         if cmd = "pvel" then (let (w, r) = calc_point_velocity fo m m.ws q qd (n_of_int id) p flag in setw c w; line "o" seq cmd (fun () -> ov3 r))
         else (let (w, r) = calc_point_velocity6 fo m m.ws q qd (n_of_int id) p flag in setw c w; line "o" seq cmd (fun () -> osv r));
-        if flag then spec_try (fun () ->
+        spec_try (fun () ->
           let ks = kstate_of c rs q qd (zeros n_qd) in
           line "s" seq cmd (fun () -> if cmd = "pvel6" then ov3 ks.kw; ov3 (k_vel fo ks p)))
       | "pacc" | "pacc6" ->
@@ -288,7 +288,7 @@ let run_line c (l : string) seq =
         let q = vec t in let qd = vec t in let qdd = vec t in
         if cmd = "pacc" then (let (w, r) = calc_point_acceleration fo m m.ws q qd qdd (n_of_int id) p flag in setw c w; line "o" seq cmd (fun () -> ov3 r))
         else (let (w, r) = calc_point_acceleration6 fo m m.ws q qd qdd (n_of_int id) p flag in setw c w; line "o" seq cmd (fun () -> osv r));
-        if flag then spec_try (fun () ->
+        spec_try (fun () ->
           let ks = kstate_of c rs q qd qdd in
           line "s" seq cmd (fun () -> if cmd = "pacc6" then ov3 ks.kdw; ov3 (k_acc fo ks p)))
       | "id" ->
@@ -388,7 +388,8 @@ let run_line c (l : string) seq =
         List.iter2 (fun a b -> upd a.str.vx b.str.vx; upd a.str.vy b.str.vy; upd a.str.vz b.str.vz;
                      upd a.stE.m00 b.stE.m00; upd a.stE.m01 b.stE.m01; upd a.stE.m02 b.stE.m02; upd a.stE.m10 b.stE.m10; upd a.stE.m11 b.stE.m11;
                      upd a.stE.m12 b.stE.m12; upd a.stE.m20 b.stE.m20; upd a.stE.m21 b.stE.m21; upd a.stE.m22 b.stE.m22) (tl w1.wXb) (tl w2.wXb);
-        line "o" seq "updiff" (fun () -> od !d)
+        line "o" seq "updiff" (fun () -> od !d);
+        line "s" seq "updiff" (fun () -> od 0.)
       | "ltl" ->
         let q = vec t in let b = vec t in
         let nn = nat_of_int n_qd in
